@@ -233,6 +233,7 @@ func (c *Ctx) setVar(s *State, v *types.Var, val Value) {
 			r := c.fresh("box."+v.Name(), sInt)
 			s.assume(lt("0", r))
 			c.freshRefFacts(s, r)
+			c.freshRefs[r] = true
 			ref = IntV{r}
 			s.vars[v] = ref
 		}
@@ -248,6 +249,16 @@ func (c *Ctx) setVar(s *State, v *types.Var, val Value) {
 
 // declVar introduces a new local (boxed ones get a fresh cell).
 func (c *Ctx) declVar(s *State, v *types.Var, val Value) {
+	if at, ok := v.Type().Underlying().(*types.Array); ok {
+		if _, isSl := val.(SliceV); !isSl {
+			// arrays are modelled as fixed-length slices with their own backing store (value copies are not modelled)
+			n := num(at.Len())
+			val = c.allocSlice(s, at.Elem(), n, n, true)
+			c.note("fixed-size arrays are modelled as fixed-length slices (array value copies are not modelled)")
+		}
+		s.vars[v] = val
+		return
+	}
 	if c.boxed(v) {
 		delete(s.vars, v)
 	}
@@ -311,6 +322,7 @@ func (c *Ctx) constGlobalUsed(v *types.Var, term string) {
 }
 
 func (c *Ctx) writeGlobal(s *State, v *types.Var, val Value) {
+	c.frameWrites[globalKey(v)] = true
 	ls := leaves(v.Type())
 	ts := flatten(val, v.Type())
 	for i, l := range ls {
@@ -353,6 +365,7 @@ func (c *Ctx) storePtr(s *State, ref string, t types.Type, val Value) {
 		}
 		return
 	}
+	c.frameWrite("F.box$"+typeKey(t)+".v", ref)
 	ls := leaves(t)
 	ts := flatten(val, t)
 	for i, l := range ls {
@@ -843,6 +856,11 @@ func (c *Ctx) walkPath(s *State, v Value, t types.Type, path []int, at ast.Node)
 			c.nilCheck(s, ref, at, "nil")
 			t = p.Elem()
 			v = nil
+		} else if _, isStruct := f.Type().Underlying().(*types.Struct); !isStruct {
+			// embedded interface (or other non-struct) field: its value
+			ref = ""
+			t = f.Type()
+			v = fv
 		} else if ref != "" {
 			// embedded struct by value inside a heap object: address it as a sub-object
 			// modelled by a derived ref so that its fields live in its own type's field maps
@@ -926,8 +944,12 @@ func (c *Ctx) evalIndex(x *ast.IndexExpr, s *State) Value {
 			return TupleV{v, BoolV{ok}}
 		}
 		return v
-	case *types.Pointer: // pointer to array
 	case *types.Array:
+		if sv, ok := c.eval(x.X, s).(SliceV); ok {
+			i := asInt(c.eval(x.Index, s))
+			c.boundsCheck(s, x, i, sv.Len)
+			return c.readElem(s, sv, i, u.Elem())
+		}
 	case *types.Signature: // generic instantiation
 		return c.eval(x.X, s)
 	}
@@ -946,8 +968,11 @@ func (c *Ctx) boundsCheck(s *State, at ast.Node, i, n string) {
 func (c *Ctx) evalSliceExpr(x *ast.SliceExpr, s *State) Value {
 	bt := c.typeOf(x.X)
 	switch bt.Underlying().(type) {
-	case *types.Slice:
-		sv := c.eval(x.X, s).(SliceV)
+	case *types.Slice, *types.Array:
+		sv, isSl := c.eval(x.X, s).(SliceV)
+		if !isSl {
+			break
+		}
 		lo, hi, mx := "0", sv.Len, sv.Cap
 		if x.Low != nil {
 			lo = asInt(c.eval(x.Low, s))
@@ -1021,6 +1046,7 @@ func (c *Ctx) mapLookup(s *State, m string, mt *types.Map, k Value) (Value, stri
 func (c *Ctx) mapStore(s *State, m string, mt *types.Map, k Value, v Value, at ast.Node) {
 	kt := c.keyTerm(k)
 	name := mapKeyName(mt)
+	c.frameWrite("D."+name, m)
 	if c.checkPanics {
 		c.oblige(s, "nilmap", c.text(at), at.Pos(), not(eq(m, "0")), c.panicTags)
 	}
@@ -1040,6 +1066,7 @@ func (c *Ctx) mapStore(s *State, m string, mt *types.Map, k Value, v Value, at a
 func (c *Ctx) mapDelete(s *State, m string, mt *types.Map, k Value) {
 	kt := c.keyTerm(k)
 	name := mapKeyName(mt)
+	c.frameWrite("D."+name, m)
 	dom := c.heapGet(s, "D."+name, sA2)
 	card := c.heapGet(s, "C."+name, sA1)
 	was := eq(sel(sel(dom, m), kt), "1")
@@ -1153,6 +1180,11 @@ func (c *Ctx) evalElt(e ast.Expr, s *State, target types.Type) Value {
 func (c *Ctx) convertTo(s *State, v Value, from, to types.Type, at ast.Node) Value {
 	if from == nil || to == nil {
 		return v
+	}
+	if _, toSlice := to.Underlying().(*types.Slice); toSlice {
+		if _, isSl := v.(SliceV); !isSl {
+			return nilSlice // untyped nil
+		}
 	}
 	if _, toIface := to.Underlying().(*types.Interface); toIface {
 		if _, fromIface := from.Underlying().(*types.Interface); !fromIface {
